@@ -138,5 +138,5 @@ Proof. reflexivity. Qed.
    branch of _apply_recursively runs the steps in the order Model/C18_machine.v : process implements *)
 Lemma skeleton_is_model :
   post_load_steps = [PExports; PWildcards; PEvent] /\ builtin_extension_always_loaded = true /\
-  seen_set_fresh_per_event = true /\ class_steps = [CLabel; CGuard; CInit; CPrune; CNested] /\ classvar_by_last_name = true.
+  seen_set_fresh_per_event = true /\ class_steps = [CLabel; CGuard; CInit; CPrune; CNested] /\ classvar_by_last_name = true /\ skips_alias_members = true.
 Proof. repeat split; reflexivity. Qed.
